@@ -179,6 +179,32 @@ func generate(w *mon.W) {
 		}
 		w.Do(key(c), func(r *mon.R) { Check(c, r) })
 	}
+	// a bound name that is the whole expression, under 0, 1 and 2 pairs of
+	// parentheses, at every position, bound by a let and by a parameter
+	for pi, pos := range positions {
+		for depth := 0; depth <= 2; depth++ {
+			for viaParam := 0; viaParam < 2; viaParam++ {
+				name, v, ptext := "same", Bin("==", Num("1"), Num("1")), "{b:Bool}"
+				if pos == "take" || pos == "top" {
+					name, v, ptext = "lim", Num("3"), "$1"
+				}
+				x := Name(name)
+				for k := 0; k < depth; k++ {
+					x = Paren(x)
+				}
+				if depth == 0 && (pos == "join-on" || pos == "join-on-nested") {
+					continue // a bare join key that is also a binding name is not judged
+				}
+				c := &Case{Params: map[string]string{}, X: x, Pos: pos, Seed: int64(pi*10 + depth)}
+				if viaParam == 1 {
+					c.Params[name] = ptext
+				} else {
+					c.Lets = []LetDef{{name, v}}
+				}
+				w.Do(fmt.Sprint("whole|", pi, "|", depth, "|", viaParam), func(r *mon.R) { Check(c, r) })
+			}
+		}
+	}
 	// every shape of let value (signed, sum, comparison, call, reference to an
 	// earlier signed let) in 0, 1 and 2 pairs of parentheses under every kind of
 	// use (bare, signed, indexed, operand on either side, argument)
